@@ -393,6 +393,9 @@ func c20(r *ev.Result, tier string) {
 	r.Rule = fmt.Sprintf("the real binary: every single fault of %v and every pair from different resources x informational flag %v x {pty, no controlling terminal}; every self-initiated exit %v; exits and single faults also with the garbage collector (and finalizers) running all the time (GOGC=1); "+
 		"oracle: no panic/stack trace, non-zero status naming a cause (or the requested output), termios after exit equal to termios before start; distinct = distinct cases", faults, flags, []string{"ctrl-c", "ctrl-d", "one-shell", "…-attached"})
 	var mu sync.Mutex
+	for _, gc := range []bool{false, true} {
+		exits = append(exits, c20Case{TTY: true, Exit: "stdin-devnull", GC: gc})
+	}
 	parallel(len(cases)+len(exits), func(i int) {
 		var (
 			c         c20Case
@@ -403,7 +406,11 @@ func c20(r *ev.Result, tier string) {
 			sig, what = c20Run(c, base, good)
 		} else {
 			c = exits[i-len(cases)]
-			sig, what = c20SelfExit(c, base)
+			if "stdin-devnull" == c.Exit {
+				sig, what = c20StdinNotTTY(base, c.GC)
+			} else {
+				sig, what = c20SelfExit(c, base)
+			}
 		}
 		mu.Lock()
 		r.Evaluations++
@@ -471,4 +478,42 @@ func c20Replay(kind string, raw json.RawMessage) int {
 	}
 	fmt.Println("not reproduced")
 	return 0
+}
+
+// c20StdinNotTTY: the program has a controlling terminal (which it puts into
+// raw mode through /dev/tty) but its standard input is something else:
+// /dev/null, so that it leaves by itself at once.  The terminal must be as it
+// was found.
+func c20StdinNotTTY(base string, gc bool) (string, string) {
+	dir, _ := os.MkdirTemp(base, "notty-in-")
+	defer os.RemoveAll(dir)
+	outf, _ := os.Create(filepath.Join(dir, "out"))
+	defer outf.Close()
+	devnull, _ := os.Open(os.DevNull)
+	defer devnull.Close()
+	cmd := exec.Command(binPath("curlrevshell"), "-listen-address", "127.0.0.1:0", "-tls-certificate-cache", filepath.Join(dir, "c", "cert.txtar"))
+	cmd.Env = c20Env(c20Case{GC: gc}, dir)
+	cmd.Stdin, cmd.Stdout, cmd.Stderr = devnull, outf, outf
+	p, err := ptyrun.StartCtty(cmd)
+	if nil != err {
+		ev.Broken("%s", err)
+	}
+	defer p.Close()
+	status := p.Wait(30 * time.Second)
+	b, _ := os.ReadFile(filepath.Join(dir, "out"))
+	out := string(b) + p.Output()
+	desc := fmt.Sprintf("status %d, output %q", status, trunc300(out))
+	for _, k := range c20Crash {
+		if strings.Contains(out, k) {
+			return "crash-output", fmt.Sprintf("the output contains %q: %s", k, desc)
+		}
+	}
+	if -1 == status {
+		return "hang", "standard input is at its end from the start, the program did not exit: " + desc
+	}
+	after, _ := p.PTY.Termios()
+	if p.Before != after {
+		return "terminal-not-restored", fmt.Sprintf("controlling terminal present, standard input /dev/null: terminal modes differ after exit: lflag %#o -> %#o; %s", p.Before.Lflag, after.Lflag, desc)
+	}
+	return "", ""
 }
